@@ -525,7 +525,8 @@ def _b3(rep: Report, pid: str, seed: int, n_random: int, n_law: int, tmp: str, s
     rep.sample({"binding": "B3", "session": {k: v for k, v in sessions[0].items() if k != "events"},
                 "events": [{k: e[k] for k in ("op", "a", "b", "text", "shape", "exc")} for e in sessions[0]["events"][:6]]})
     if selfcheck:
-        _selfcheck_b3(sessions[:50], tmp)
+        clean = {sid for sid, _, _ in rejects}
+        _selfcheck_b3([x for x in sessions if x["sid"] not in clean][:50], tmp)      # only sessions the specification accepted as recorded
 
 
 def _make_batch(args):
